@@ -88,7 +88,7 @@ class ProgramGen(object):
                  'import', 'augassign', 'lambda', 'dictlit', 'nestedfor', 'callml', 'emit_comment', 'tryfinally',
                  'globaldef', 'noeol', 'fstring', 'walrus', 'match', 'delvar', 'asyncfor', 'asynccomp', 'decoasync',
                  'docstr_in_def', 'deepnest', 'unicode', 'starunpack', 'yieldgen', 'condexpr', 'withas', 'stdoutwrite',
-                 'elifchain', 'commentbody', 'parenwith', 'tripledq']
+                 'elifchain', 'commentbody', 'parenwith', 'tripledq', 'mlstr_trailing']
 
     def __init__(self, rng, kinds=None, allow_async=True):
         self.rng = rng
@@ -272,6 +272,10 @@ class ProgramGen(object):
         if k == 'tripledq':
             self.defined_vars.append('s%d' % i)
             return S(["s%d = '''it's \"q\" %d" % (i, i), "'''; quiet(%d)" % i], k, i, str_body=(1,), is_expr=True)
+        if k == 'mlstr_trailing':
+            # significant trailing blanks inside a string literal
+            self.defined_vars.append('s%d' % i)
+            return S(["s%d = '''alpha   " % i, "beta %d  " % i, "'''; quiet(%d)" % i], k, i, str_body=(1, 2), is_expr=True)
         if k == 'import':
             first = r.choice(['import os.path as m%d' % i, 'from os import path as m%d' % i])
             return S([first, 'quiet(%d)' % i], k, i, is_expr=True, ps1_lines=(1,))
@@ -368,7 +372,10 @@ class Layout(object):
     @staticmethod
     def random(rng):
         base = rng.choice([0, 4, 8])
-        return Layout(rng, base_indent=base, tabs=(base > 0 and rng.random() < 0.35),
+        tabs = (base > 0 and rng.random() < 0.35)
+        if tabs and base == 8 and rng.random() < 0.5:
+            tabs = 'mixed'      # some lines indented by one tab, the others by eight blanks: the same columns
+        return Layout(rng, base_indent=base, tabs=tabs,
                       wrapper=rng.choice(['freeform', 'freeform', 'google']),
                       want_prob=rng.choice([0.2, 0.5, 0.8]),
                       prose_prob=rng.choice([0.0, 0.15, 0.3]),
@@ -382,7 +389,7 @@ class Layout(object):
         """prompt-prefixed lines of one statement, list of (text, label)"""
         rng = self.rng
         style = style or rng.choice(self.styles)
-        if st.kind == 'tripledq':
+        if st.kind in ('tripledq', 'mlstr_trailing'):
             style = 'ps2'
         out = []
         for li, line in enumerate(st.lines):
@@ -480,15 +487,21 @@ class Layout(object):
         if self.tabs and self.base_indent:
             # the base indentation is written with tabs (one per 4 columns; expandtabs turns each
             # into 8 columns, uniformly for every line, so relative indentation is unchanged)
-            text = '\n'.join(_tabify(ln, self.base_indent) for ln in text.split('\n'))
+            if self.tabs == 'mixed':
+                # one tab = eight columns = the eight blanks of the other lines
+                text = '\n'.join(_tabify(ln, self.base_indent, per=8) if rng.random() < 0.5 else ln
+                                 for ln in text.split('\n'))
+                features.add('mixed-tabs-and-blanks')
+            else:
+                text = '\n'.join(_tabify(ln, self.base_indent) for ln in text.split('\n'))
         info = {'labels': labels, 'wants': placed, 'style': style, 'head': len(head),
                 'unmatched_tail': pending, 'unprefixed': self.used_unprefixed, 'features': sorted(features)}
         return text, info
 
 
-def _tabify(line, base):
+def _tabify(line, base, per=4):
     if line.startswith(' ' * base):
-        return '\t' * (base // 4) + line[base:]
+        return '\t' * (base // per) + line[base:]
     return line
 
 
